@@ -192,7 +192,8 @@ chk("C28", MC,
     "at engine-chosen cycles, terminal chunks of symbolic length 0..22, accept delays per chunk and direction symbolic. "
     "Obligations: chunks presented to the terminal are the application's byte stream once and in order, one transmit-request "
     "toggle per chunk, chunk kept until acknowledged, no new chunk before the acknowledge; every announced chunk is delivered to "
-    "the application exactly once in order with one receive-accept toggle each.",
+    "the application exactly once in order with one receive-accept toggle each; with data waiting and no chunk outstanding "
+    "a new chunk is announced in that cycle (progress), also when the terminal's toggle bits are arbitrary at connection.",
     PY_NOTE + " Pipes are byte queues; handshake model written from the EL6002 documentation.",
     "symbolic execution of the real device code against a nondeterministic handshake model over bounded histories (z3)", "B:8/C28")
 
